@@ -168,13 +168,11 @@ def parse_row(region_row):
 
     meta = {}
     if include == 0:
-        meta = {'include': include}
-        region.meta = RegionMeta(meta)
+        meta['include'] = include
 
     shape_key = 'COMPONENT'
     if shape_key in region_row.colnames:
-        component = int(region_row[shape_key])
-        meta = {'component': component}
+        meta['component'] = int(region_row[shape_key])
 
     if meta:
         region.meta = RegionMeta(meta)
